@@ -80,7 +80,8 @@ def run(cx):
             exp = {("spawn", 1): "5", ("spawn", 2): "6", ("wait", 1): "51", ("wait", 2): "62", ("waiterr", 3): '"boom"',
                    ("go", 4): "[13, 23, 33, 43]", ("go", 5): "8", ("go", 6): "9", ("go", 7): "407",
                    ("closure", 8): "[105, 6, 5]", ("closure", 9): "[7, 7]",
-                   ("nilvalue", 10): "[1, nil, 3, nil]", ("nilvalue", 11): "[[0, nil], [1, 7]]", ("waitpanic", 12): '"raised"'}
+                   ("nilvalue", 10): "[1, nil, 3, nil]", ("nilvalue", 11): "[[0, nil], [1, 7]]", ("waitpanic", 12): '"raised"',
+                   ("nested", 13): "[50, 1225]", ("nested", 14): "42"}
             if marks != exp:
                 bad_marks.append((r_["id"], marks))
     langlib.tlc_conform(cx, traces, spec="TraceChan", prefix="trace", strip=(), nshards=8)
